@@ -155,7 +155,7 @@ def run_impl(ops):
                 outs.append([[bytes(x) for x in lst], fog_list(g)])
                 same = fog_list(f) == before and g == f
         except Exception as e:
-            outs.append(C.exc_obs(e, with_attrs=False))
+            outs.append(C.exc_obs(e, with_attrs=False, fog=True))
             same = fog_list(f) == before
         aux.append((before, fog_list(f), same))
     return outs, aux
